@@ -13,7 +13,12 @@ import (
 
 func init() {
 	register("c18", func(r *Run) {
-		switch r.Tape.Weighted(3, 3, 3, 2, 2, 1) {
+		switch r.Tape.Weighted(3, 3, 3, 2, 2, 1, 3) {
+		case 6:
+			// group-by keyed without the time column, counting trigger, retractions with their own event times
+			c18ForceRefire = true
+			opScenario(r, "C18")
+			c18ForceRefire = false
 		case 0:
 			eventTimeBufferScenario(r)
 		case 1:
